@@ -643,6 +643,7 @@ impl AssemblyCode {
                                     y_register = None;
                                 }
                             }
+                            flags = FlagsState::Unknown;
                         }
                         AsmMnemonic::INX | AsmMnemonic::DEX => {
                             if let Some(v) = &accumulator {
@@ -656,6 +657,7 @@ impl AssemblyCode {
                                 }
                             }
                             x_register = None;
+                            flags = FlagsState::Unknown;
                         }
                         AsmMnemonic::INY | AsmMnemonic::DEY => {
                             if let Some(v) = &accumulator {
@@ -669,6 +671,7 @@ impl AssemblyCode {
                                 }
                             }
                             y_register = None;
+                            flags = FlagsState::Unknown;
                         }
                         AsmMnemonic::TAX => {
                             x_register = accumulator.clone();
